@@ -252,12 +252,12 @@ CLAIMS = {
         text="Kernel-checked: the pentagrid index (floor) is unchanged when no integer is crossed and rises by exactly one across exactly one grid line; for index vectors in ℤ^B and "
              "star vectors in any abelian group, faces whose indices differ by e_b are mapped to points differing by exactly star_b (−star_b for −e_b), so every edge is parallel to a "
              "star direction and all edges have one length; the four faces round a grid vertex map to a parallelogram with sides star_b1, star_b2 (a rhombus); index vectors equal "
-             "modulo a relation among the star vectors map to the same point; the executable edge test is sound; for koala's star vectors (cos a_b, sin a_b), any angles (with or without disorder): every edge has squared length exactly 1 before the common rescaling (edge_length_one), the sides of the rhombus at a grid vertex of bundles b1, b2 enclose the angle a_b1 − a_b2 (rhombus_angle), and for five bundles at angles 2πb/5 the cosine of that angle is cos 72° or cos 144° — only the two Penrose rhombi (penrose_rhombi). Index vectors are reconstructed from koala's output along a spanning "
+             "modulo a relation among the star vectors map to the same point; the executable edge test is sound; for koala's star vectors (cos a_b, sin a_b), any angles (with or without disorder): every edge has squared length exactly 1 before the common rescaling (edge_length_one), the sides of the rhombus at a grid vertex of bundles b1, b2 enclose the angle a_b1 − a_b2 (rhombus_angle), and for five bundles at angles 2πb/5 the cosine of that angle is cos 72° or cos 144° — only the two Penrose rhombi (penrose_rhombi); penrose_position_injective / prime_position_injective: for five — and for any prime number of — bundles two index vectors are mapped to the same point only if they differ by a multiple of (1,1,1,1,1) (the fifth cyclotomic polynomial is the minimal polynomial of ζ₅ over ℚ, so 1, ζ, ζ², ζ³ are linearly independent: star5_relations), which turns the model's exact re-check 'index vectors pairwise different modulo the relations' into 'vertex positions pairwise different' (exactly, before float rounding). Index vectors are reconstructed from koala's output along a spanning "
              "tree and the model re-checks exactly that every edge's index difference is ±e_b and that all index vectors are distinct modulo the cyclotomic relations; the statement "
              "(unit square, connected, equal lengths, rhombi, star directions/Penrose angles, no crossings, no coincident vertices, no dangling edges, V−E+F=1) is evaluated on the "
              "output for B∈{3,5,7,9}, default/scalar/random/generic offsets, angle disorder and penrose_tiling seeds.",
         note="Partial: de Bruijn's theorem (planarity and injectivity of the dual of a generic multigrid), connectivity and Euler's formula are not proved; they are decided on the "
-             "output with tolerance-guarded float predicates. Linear independence of roots of unity modulo cyclotomic relations is trusted. Non-generic offsets (three lines through a "
+             "output with tolerance-guarded float predicates. Linear independence of roots of unity modulo cyclotomic relations is proved for every prime number of bundles (prime_position_injective: 3, 5, 7; penrose_position_injective for 5) and trusted for 9. Non-generic offsets (three lines through a "
              "point; always for random_offsets(3)) are detected independently and excluded. Trusted: Lean kernel/Mathlib/standard axioms; harness.",
         ref="§7 C17"),
 }
